@@ -68,6 +68,36 @@ theorem glam_eq_kron_C09 (dims : List (Dim α)) (coords : List (List α)) (data 
       (∀ i < P.ncoef, S.rhs.getD i 0 = (specR P).getD i 0) :=
   glam_eq_kron_nd dims coords data weights smoothing porders hne hs hax hlen hdata
 
+/-- **End to end (exact arithmetic).**  Under the hypotheses of the GLAM identity, if the normal matrix is positive
+definite then every exact solution `c` of the system assembled by the model of the code, `fitmat · c = rhs` — what the
+Cholesky solve computes up to rounding — is the unique minimiser of the penalised weighted least-squares objective stated
+by the property. -/
+theorem glam_solution_is_unique_minimiser (dims : List (Dim α)) (coords : List (List α))
+    (data : List (List Nat × α)) (weights : List α) (smoothing : List α) (porders : List Nat)
+    (hne : dims ≠ []) (hs : StridesRowMajor dims) (hax : ∀ d ∈ dims, d.naxes = d.nknots - d.order - 1)
+    (hlen : coords.length = dims.length)
+    (hdata : ∀ e ∈ data, IdxIn e.1 (coords.map List.length)) :
+    let P : FitProblem α :=
+      ⟨dims, coords, ((data.zip weights).map fun (e, w) => ⟨e.1, e.2, w⟩).toArray,
+       (List.range dims.length).map (fun k => pick smoothing k 0),
+       (List.range dims.length).map (fun k => pick porders k 0)⟩
+    PosDef P.ncoef (Mf P) →
+    ∀ S, glamSystem dims coords (coords.map List.length) data weights smoothing porders = some S →
+    ∀ c : Nat → α, (∀ i < P.ncoef, mulVec P.ncoef (fun i j => S.fitmat.get i j) c i = S.rhs.getD i 0) →
+      (∀ c' : Nat → α, objective P c ≤ objective P c')
+        ∧ ∀ c' : Nat → α, objective P c' ≤ objective P c → ∀ i < P.ncoef, c' i = c i := by
+  intro P hP S hS c hc
+  obtain ⟨S', hS', hM, hr⟩ := glam_eq_kron_nd dims coords data weights smoothing porders hne hs hax hlen hdata
+  have hSS : S' = S := Option.some.inj (hS'.symm.trans hS)
+  subst hSS
+  have hN : ∀ i < P.ncoef, mulVec P.ncoef (Mf P) c i = rf P i := by
+    intro i hi
+    have h1 : mulVec P.ncoef (fun i j => S'.fitmat.get i j) c i = mulVec P.ncoef (Mf P) c i :=
+      mulVec_congr_mat P.ncoef c i hi (fun a ha b hb => hM a ha b hb)
+    rw [← h1, hc i hi]
+    exact hr i hi
+  exact ⟨((C09_fit_is_minimiser P c hP).1).1 hN, (C09_fit_is_minimiser P c hP).2 hN⟩
+
 end
 
 /-- a two-dimensional example: orders 1 × 1, four knots each, 2 × 2 coefficients with strides (2, 1) -/
@@ -109,5 +139,15 @@ example : ∃ S, glamSystem exDims2 [[1, 3/2, 2], [1, 2]] [3, 2]
           have : k = 0 ∨ k = 1 := by simp at hk; omega
           rcases this with rfl | rfl <;> simp⟩)
   exact ⟨S, h1, h2 0 (by decide) 0 (by decide)⟩
+
+/-- non-vacuity of `glam_solution_is_unique_minimiser`: the problem built from the arguments of the one-dimensional example
+is `exP`, whose normal matrix is positive definite; `c = (1,1)` solves the assembled system. -/
+example :
+    let P : FitProblem Rat :=
+      ⟨[exDim], [[1, 3/2, 2]], (([([0], (1:Rat)), ([2], 1), ([1], 5)].zip [(1:Rat), 1, 0]).map
+          fun (e, w) => ⟨e.1, e.2, w⟩).toArray,
+       (List.range 1).map (fun k => pick [(1:Rat)] k 0), (List.range 1).map (fun k => pick [1] k 0)⟩
+    PosDef P.ncoef (Mf P) ∧ ∀ i < P.ncoef, mulVec P.ncoef (Mf P) (fun _ => 1) i = rf P i :=
+  ⟨exP_posDef, exP_normal⟩
 
 end PsV
